@@ -57,7 +57,8 @@ def codec(
     marshal = marshaller or marshals.marshaller(t=t)
     unmarshal = unmarshaller or unmarshals.unmarshaller(t=t)
     cls = codec_cls or Codec
-    if inspection.isbytestype(t):
+    # Bytes behind a `NewType`, an alias or a qualifier are still carried verbatim.
+    if inspection.isbytestype(inspection.unwrap(t)):
         cdc = cls(
             marshal=marshal,
             unmarshal=unmarshal,
